@@ -753,3 +753,116 @@ def c15(prop, tier, replay):
                 "against the function of (file, arguments); muxing histories run twice / files opened twice for determinism; "
                 "non-trivial = a session with at least two calls or a muxing history with at least two samples",
                 sum(1 for c in cases if len(c.get("calls", [])) >= 2) + len(mcases), {})
+
+
+# ----------------------------------------------------------------------------------------
+# C11: crash-point (cut) enumeration
+
+@check("C11")
+def c11(prop, tier, replay):
+    t0 = time.time()
+    rng = random.Random(seed())
+    wd = workdir(prop + "-" + tier)
+    known = load_known()
+    if replay:
+        cases = [json.load(open(replay))]
+        res = validate_sharded("Trace_Trunc", cases, wd, "replay", 1, runner="trunc-run")
+        report_read(prop, tier, res, cases, [], t0, known, "fault_enumeration", "replay", 2)
+        return
+    stats, files = [], []
+    # spec-rendered layouts: movie header first / last, with free boxes, 64-bit headers; fragmented; metadata
+    for b in ("plain", "frag"):
+        st, mcs = gen_mc("MC_Layout", "MC_Layout_%s1" % b, wd, tier, coverage=False)
+        stats.append(st)
+        def pick(pred, n=1):
+            return [c for c in mcs if pred(c)][:n]
+        sel = pick(lambda c: len(c["ops"]) == 0)
+        sel += pick(lambda c: len(c["ops"]) == 1 and c["ops"][0]["op"] == "swap" and c["ops"][0]["path"] == [])
+        sel += pick(lambda c: len(c["ops"]) == 1 and c["ops"][0]["op"] == "free" and c["ops"][0]["path"] == [] and c["ops"][0]["len"] == 5, 2)
+        sel += pick(lambda c: len(c["ops"]) == 1 and c["ops"][0]["op"] == "large", 2 if tier == "quick" else 12)
+        if tier == "thorough":
+            sel += rng.sample(mcs, min(60, len(mcs)))
+        for c in sel:
+            files.append({"file": c["file"], "kind": "spec-rendered " + b, "ops": c["ops"]})
+    st, mcs = gen_mc("MC_Meta", "MC_Meta_q", wd, tier, coverage=False)
+    stats.append(st)
+    full = [c for c in mcs if c["shape"] in ("mdir", "mdirqt") and c["title"] != "absent" and c["year"] == "text2008" and c["poster"] != "absent"][:2]
+    files += [{"file": c["file"], "kind": "spec-rendered metadata"} for c in full]
+    # muxer outputs (movie header last)
+    rp, fp = os.path.join(wd, "mux-cases.ndjson"), os.path.join(wd, "mux-files.ndjson")
+    mp4v(["mux-gen", str(seed()), str(12 if tier == "quick" else 120), rp])
+    small = [c for c in read_ndjson(rp) if 1 <= sum(1 for x in c["calls"] if x["op"] == "write") <= 40]
+    write_ndjson(rp, small[:4 if tier == "quick" else 40])
+    mp4v(["mux-file", rp, fp])
+    files += [{"file": f["file"], "kind": "muxer output " + f["id"]} for f in read_ndjson(fp) if len(f["file"]) < 20000]
+    # third-party files
+    files.append({"file": canned("minimal.mp4"), "kind": "canned minimal.mp4"})
+    files.append({"file": canned("extended_audio_object_type.mp4"), "kind": "canned extended_audio_object_type.mp4"})
+    if tier == "thorough":
+        files.append({"file": canned("big_buck_bunny_metadata.m4v"), "kind": "canned big_buck_bunny_metadata.m4v", "step": 7})
+    cases = [dict(f, id="cut-%d" % i) for i, f in enumerate(files)]
+    res = validate_sharded("Trace_Trunc", cases, wd, "trunc", 6 if tier == "quick" else 16, runner="trunc-run")
+    ncuts = sum((len(c["file"]) + c.get("step", 1) - 1) // c.get("step", 1) for c in cases)
+    report_read(prop, tier, res, cases, stats, t0, known, "fault_enumeration",
+                "every cut position 0..len-1 of every file of the corpus (spec-rendered layouts: movie header first/last, free boxes, "
+                "64-bit headers, fragmented, with metadata; muxer outputs; canned third-party files): open the prefix, read every sample id "
+                "of the complete file; distinct = (file, cut) pairs; all are non-trivial",
+                ncuts, {"evaluations": ncuts, "files": len(cases), "cuts": ncuts,
+                        "samples": [{"kind": c["kind"], "len": len(c["file"])} for c in cases[:6]]})
+
+
+# ----------------------------------------------------------------------------------------
+# C10: fault enumeration (every stream call index x fault kind) + transfer chunkings
+
+@check("C10")
+def c10(prop, tier, replay):
+    t0 = time.time()
+    rng = random.Random(seed())
+    wd = workdir(prop + "-" + tier)
+    known = load_known()
+    if replay:
+        cases = [json.load(open(replay))]
+        res = validate_sharded("Trace_Stream", cases, wd, "replay", 1, runner="fault-run")
+        report_read(prop, tier, res, cases, [], t0, known, "fault_enumeration", "replay", 2)
+        return
+    # leg A: the loop / environment model
+    r = tlc_mc("MC_Stream", "MC_Stream", wd, workers=4, timeout=600)
+    if r["violated"] or not r["ok"]:
+        raise ToolError("Stream model: %s\n%s" % (r["violated"], r["tail"][-2000:]))
+    stats = [{"cfg": "MC_Stream", "states": r["states"], "distinct": r["distinct"], "depth": r["depth"], "cases": 0,
+              "actions": r["actions"], "wall": round(r["wall"], 1)}]
+    for a in ("Transfer", "Skip", "Interrupt", "Fault", "Complete"):
+        if r["actions"].get(a, 0) == 0:
+            raise ToolError("vacuity: Stream action %s never taken" % a)
+    cases = []
+    # reading sessions: spec-rendered (plain, fragmented, metadata) and canned files
+    st, mcs = gen_mc("MC_Layout", "MC_Layout_plain1", wd, tier, coverage=False)
+    stats.append(st)
+    base = [c for c in mcs if len(c["ops"]) == 0][:1] + [c for c in mcs if len(c["ops"]) == 1 and c["ops"][0]["op"] == "large"][:1]
+    st, fr = gen_mc("MC_Layout", "MC_Layout_frag1", wd, tier, coverage=False)
+    stats.append(st)
+    base += [c for c in fr if len(c["ops"]) == 0][:1]
+    st, me = gen_mc("MC_Meta", "MC_Meta_q", wd, tier, coverage=False)
+    stats.append(st)
+    base += [c for c in me if c["shape"] == "mdirqt" and c["title"] != "absent" and c["poster"] != "absent"][:1]
+    for c in base:
+        cases.append({"file": c["file"], "kind": "read spec-rendered"})
+    cases.append({"file": canned("minimal.mp4"), "kind": "read canned minimal.mp4", "stride": 1 if tier == "thorough" else 3})
+    if tier == "thorough":
+        cases.append({"file": canned("extended_audio_object_type.mp4"), "kind": "read canned extended_audio_object_type.mp4"})
+    # muxing sessions
+    rp = os.path.join(wd, "mux-cases.ndjson")
+    mp4v(["mux-gen", str(seed()), str(40 if tier == "quick" else 400), rp])
+    mux = [c for c in read_ndjson(rp) if 2 <= sum(1 for x in c["calls"] if x["op"] == "write") <= (12 if tier == "quick" else 40)]
+    for c in mux[:3 if tier == "quick" else 40]:
+        c["kind"] = "mux " + c["id"]
+        cases.append(c)
+    cases = [dict(c, id="io-%d" % i) for i, c in enumerate(cases)]
+    res = validate_sharded("Trace_Stream", cases, wd, "fault", 6 if tier == "quick" else 16, runner="fault-run")
+    nrun = res["events"] - 2 * len(cases)
+    report_read(prop, tier, res, cases, stats, t0, known, "fault_enumeration",
+                "for every session (reading spec-rendered and canned files incl. every sample; muxing random histories): the k-th stream "
+                "call fails for every k (any call / read / seek / write) and the k-th write accepts zero bytes for every k, plus five "
+                "short-transfer / interrupt patterns down to one byte per call; distinct = (session, fault kind, k); all non-trivial",
+                max(2, nrun), {"evaluations": max(1, nrun), "sessions": len(cases),
+                               "samples": [{"kind": c["kind"]} for c in cases[:8]]})
